@@ -1,12 +1,12 @@
 (* Props/C13.v — Overlay layers compose by precedence; metadata never ships; keys never collide.
-   Statements only; proofs in Proofs/OverlayP.v and Proofs/IdsP.v.
+   Statements only; proofs in Proofs/OverlayP.v, Proofs/IdsP.v and Proofs/MachineP.v.
 
    Model: Model/Overlay.v (compose_module_tree, copy_tree, list_files, the patch loop and its header
    validation) and Model/Ids.v (module_fs_key, overlay directory resolution).  `git apply` is the
    oracle [ap : patch_text -> target_text -> option new_text]; SHA-256 is the oracle [sha] with the
    premise [sha_ok] (64 lowercase hex digits).  [get r t] is the content of path r in tree t;
    [view l r] what layer l provides at r; [Err c] carries no tree: a refusal produces no output. *)
-From AP Require Import Base.Str Model.Ids Model.Overlay Proofs.IdsP Proofs.OverlayP.
+From AP Require Import Base.Str Model.Ids Model.Overlay Model.Machine Proofs.IdsP Proofs.OverlayP Proofs.MachineP.
 Open Scope N_scope.
 
 (* ------------------------------------------------------------------ precedence *)
@@ -321,3 +321,49 @@ Proof.
     + unfold K13a. vm_compute. discriminate.
     + unfold K13b. intros [H|[H|[H|H]]]; vm_compute in H; discriminate.
 Qed.
+
+(* ------------------------------------------------------------------ the other derived names *)
+
+(* "every derived directory name is a single filesystem-safe component": besides the module key
+   the overlay directories are built from the machine id (machines/<id>) and the project id
+   (projects/<id>).  The machine id — from --machine, AGENTPACK_MACHINE_ID, HOSTNAME, COMPUTERNAME,
+   `hostname` or the literal "unknown", whatever those hold — is a non-empty string over
+   [a-z0-9_-]; its length is that of its source (no bound: C13's bound is on the module key). *)
+Theorem C13_machine_id_component : forall (override : option str) (cands : list str),
+  let m := engine_machine_id override cands in
+  m <> [] /\ forallb is_mid_char m = true /\ safe_component m = true.
+Proof. intros o c. destruct (engine_machine_id_chars o c). repeat split; try assumption. apply engine_machine_id_safe. Qed.
+Print Assumptions C13_machine_id_component.
+
+(* normalisation is a projection, and a machine id agentpack reports can be passed back with
+   --machine unchanged, whatever the environment then says *)
+Theorem C13_machine_id_normal_form : forall x,
+  normalize_machine_id (normalize_machine_id x) = normalize_machine_id x.
+Proof. exact normalize_idem. Qed.
+Print Assumptions C13_machine_id_normal_form.
+
+Theorem C13_machine_id_stable : forall override cands cands',
+  engine_machine_id (Some (engine_machine_id override cands)) cands' = engine_machine_id override cands.
+Proof. exact engine_machine_id_stable. Qed.
+Print Assumptions C13_machine_id_stable.
+
+Theorem C13_project_id_component : forall sha, sha_ok sha -> forall basis,
+  length (project_id sha basis) = 16%nat /\ forallb is_hex_lower (project_id sha basis) = true
+  /\ safe_component (project_id sha basis) = true.
+Proof. exact project_id_safe. Qed.
+Print Assumptions C13_project_id_component.
+
+(* all components of a resolved overlay directory, relative to the config repo *)
+Theorem C13_overlay_dir_components_safe : forall sha override cands basis ex sc id, sha_ok sha ->
+  forallb legacy_safe (overlay_dir_for sha (engine_machine_id override cands) (project_id sha basis) ex sc id) = true.
+Proof. exact overlay_dir_for_safe. Qed.
+Print Assumptions C13_overlay_dir_components_safe.
+
+Example C13_machine_id_nonvacuous :
+  normalize_machine_id (s "  My Host.local  ") = s "my-host-local" /\
+  normalize_machine_id (s "--a--b__C..") = s "a--b__c" /\
+  normalize_machine_id [8490; 304; 47; 46; 46] = s "ki" /\
+  normalize_machine_id (s " ../.. ") = [] /\
+  engine_machine_id (Some (s "../..")) [s ""; s "Build Box #7"] = s "build-box-7" /\
+  engine_machine_id None [s "///"] = s "unknown".
+Proof. repeat split; vm_compute; reflexivity. Qed.
